@@ -34,7 +34,7 @@ THREADS = (1, 2, 4, 8, 16)
 
 # ---------------------------------------------------------------------- workloads (run inside a mode process)
 def label_cases(tier):
-    lim = 6
+    lim = 8 if tier == "thorough" else 6
     out = []
     for T in range(1, lim + 1):
         for K in range(1, lim + 1):
@@ -77,7 +77,7 @@ def wl_labels(tier):
 
 def lik_cases():
     out = []
-    for NW in (1, 2, 6, 40):
+    for NW in ((1, 2, 6, 40, 100) if os.environ.get("VERIF_TIER_EFFECTIVE") == "thorough" else (1, 2, 6, 40)):
         bm = base_matrices(NW)
         for K in (1, 2, 3):
             thetas = [bm[k % len(bm)][1] * (1.0 + 0.5 * k) for k in range(K)]
@@ -164,6 +164,7 @@ def wl_runs(tier):
 
 
 def mode_main(mode, arg, tier, seed):
+    os.environ["VERIF_TIER_EFFECTIVE"] = tier
     from vlib import lib
     lib.load(mode)
     from fast_ticc import numba_guard
@@ -195,6 +196,7 @@ def mode_main(mode, arg, tier, seed):
 
 # ---------------------------------------------------------------------- comparison (parent)
 def run(ctx):
+    os.environ["VERIF_TIER_EFFECTIVE"] = ctx.tier
     tmp = scratch_dir("c15_")
     outs = {}
     try:
@@ -298,9 +300,9 @@ def run(ctx):
     ctx.cov["exhaustive"] = True
     ctx.cov["rule"] = (
         "three processes (JIT, NUMBA_DISABLE_JIT=1, numba unimportable): (i) labelling kernel on every table over "
-        "{0,1,3}^(T*K), T*K<=6 x 12 betas (identical labels and cost) and over the real alphabet "
+        "{0,1,3}^(T*K), T*K<=6 (thorough 8) x 12 betas (identical labels and cost) and over the real alphabet "
         "{0.1,0.7,-1.3,1e-9,1e9} for T*K<=4 (thorough <=6) x 3 betas (identical labels, cost within 1e-12); (ii) "
-        "likelihood table for NW in {1,2,6,40} x K in {1,2,3} x T in {1,2,5,17} (+600 rows for two shapes, repeated 6 times free-running per thread count) x layouts {C, Fortran, strided view} "
+        "likelihood table for NW in {1,2,6,40} (thorough +100) x K in {1,2,3} x T in {1,2,5,17} (+600 rows for two shapes, repeated 6 times free-running per thread count) x layouts {C, Fortran, strided view} "
         "in every mode and for numba thread counts {1,2,4,8,16}: within 1e-10 x scale of the Cholesky log-density, "
         "bitwise equal across thread counts; interpreted modes with the parallel loop's range replaced by every "
         "permutation (T<=5) / 3 structured orders: bitwise equal; (iii) complete scripted runs for every 4th "
